@@ -894,7 +894,41 @@ func round7(w *World, r *Report, prop string) {
 		r.guard("R02.12", func() { r6NoHandOver(w, r, "R02.12") })
 		r.Rule("R02.13", "the keys of a step are attached once, when all its predicates are complete: in the expression grammar PredicatesStart and PredicatesEnd enclose PredicateSet in the productions of Step, and no production of PredicateSet contains them", 1)
 		r.guard("R02.13", func() { r7PredicateSetBracketed(w, r, "R02.13") })
+		r.Rule("R02.14", "one element per step whatever the step is: PathStack.PushElem adds the element it is given to the path under construction on every way through it (a `..` at the root is an element too: `/../a` designates nothing, it is not `/a`)", 1)
+		r.guard("R02.14", func() {
+			f := w.SSAFunc(w.Method("xpath", "PathStack", "PushElem"))
+			if f == nil || len(f.Params) < 2 {
+				panic(undecided{"PathStack.PushElem"})
+			}
+			var add *ssa.Call
+			for _, b := range f.Blocks {
+				for _, in := range b.Instrs {
+					if c, ok := in.(*ssa.Call); ok {
+						name := ""
+						if c.Call.IsInvoke() {
+							name = nm(c.Call.Method)
+						} else if g := c.Call.StaticCallee(); g != nil {
+							name = g.Name()
+						}
+						if name == "AddPathElem" && len(c.Call.Args) > 0 && c.Call.Args[len(c.Call.Args)-1] == ssa.Value(f.Params[1]) {
+							add = c
+						}
+					}
+				}
+			}
+			ok := add != nil
+			if ok {
+				for _, b := range f.Blocks {
+					if _, isRet := b.Instrs[len(b.Instrs)-1].(*ssa.Return); isRet && !(add.Block() == b || add.Block().Dominates(b)) {
+						ok = false
+					}
+				}
+			}
+			r.Check(ok, "R02.14", "PathStack.PushElem adds the element on every path", f.Pos(), "AddPathElem(e) dominates every return", "an element handed to PushElem can be dropped: the path the data tree is asked for has fewer elements than the expression has steps (e.g. a `..` directly below the root vanishes and `/../a` asks for `/a`)")
+		})
 	case "C01":
+		r.Rule("R01.12", "each comparison instruction decides through its own comparators: none of Eq, Ne, Lt, Le, Gt, Ge is computed from another of them (over node-sets a comparison is existential, so `!=` is not the complement of `=`, nor `>=` of `<`)", 6)
+		r.guard("R01.12", func() { r8ComparisonsIndependent(w, r, "R01.12") })
 		r.Rule("R01.11", "no function rounds by floor(x + 0.5): x + 0.5 is not representable for 0.49999999999999994 and for odd integers above 2^52, so every rounding in package xpath is floor(x) plus one when the fraction is at least one half (round() and both arguments of substring())", 2)
 		r.guard("R01.11", func() { r8NoFloorPlusHalf(w, r, "R01.11") })
 	case "C03":
@@ -1118,5 +1152,28 @@ func r8NoFloorPlusHalf(w *World, r *Report, rule string) {
 	}
 	if n == 0 {
 		panic(undecided{"package xpath: no use of math.Floor found"})
+	}
+}
+
+// r8ComparisonsIndependent (R01.12): no comparison instruction of the builder
+// calls another one (itself excepted: Eq descends into leaf-list members).
+func r8ComparisonsIndependent(w *World, r *Report, rule string) {
+	names := []string{"Eq", "Ne", "Lt", "Le", "Gt", "Ge"}
+	fns := map[*ssa.Function]string{}
+	for _, n := range names {
+		f := w.SSAFunc(w.Method("xpath", "ProgBuilder", n))
+		if f == nil {
+			panic(undecided{"ProgBuilder." + n})
+		}
+		fns[f] = n
+	}
+	for f, n := range fns {
+		other := ""
+		for g := range calleesDeep(f, 1) {
+			if on, is := fns[g]; is && g != f {
+				other = on
+			}
+		}
+		r.Check(other == "", rule, "ProgBuilder."+n, f.Pos(), "calls none of the other comparison instructions", "is computed from "+other+": over node-sets every comparison is existential (some pair compares true), so one operator is not the complement or the converse of another — an absent leaf must be false under both `=` and `!=`, and a leaf-list with the values {red, blue} is both `= 'red'` and `!= 'red'`")
 	}
 }
